@@ -14,9 +14,11 @@ from pyv.models import names as N
 from pyv.models import matchrules as MR
 
 fails = []
+count = [0]
 
 
 def expect(cond, what):
+    count[0] += 1
     if not cond:
         fails.append(what)
 
@@ -97,4 +99,4 @@ if fails:
     for f in fails:
         print('  -', f)
     sys.exit(1)
-print('selfcheck: ok (%d oracle vectors)' % 130)
+print('selfcheck: ok (%d oracle vectors)' % count[0])
